@@ -1,6 +1,319 @@
-"""C10 rules (placeholder: fail-closed until the rules are implemented)."""
-from ..loader import AnalysisError
+"""C10 - job scripts run the spec faithfully with the resolved resource options (template-domain evaluation of the pure builders)."""
+import ast
+
+from ..consteval import CantEval
+from ..index import dotted, walk_no_nested, loc
+from ..reference import flags as REF
+from ..symeval import Obj, PureInterp, Raised, Unsupported, tok
+from .persist import _calls
+
+BACKENDS = (
+    ("slurm", "gwf.backends.slurm", "SlurmOps", "#SBATCH ", REF.SBATCH_FLAGS, REF.SBATCH_FIXED),
+    ("sge", "gwf.backends.sge", "SGEOps", "#$ ", REF.QSUB_FLAGS, REF.QSUB_FIXED),
+    ("lsf", "gwf.backends.lsf", "LSFOps", "#BSUB ", REF.BSUB_FLAGS, REF.BSUB_FIXED),
+)
+SPEC, WD, PROJ, NAME = tok("SPEC"), tok("WD"), tok("PROJ"), "NAME"
+
+
+def make_target(options):
+    return Obj("target", name=NAME, spec=SPEC, working_dir=WD, options=dict(options), inputs=[], outputs=[])
+
+
+def compile_script(ctx, mod, cname, options, log_mode="full"):
+    idx = ctx.index
+    ci = idx.cls(f"{mod}:{cname}")
+    fn = idx.method(ci, "compile_script")
+    interp = PureInterp(ctx)
+    self_obj = Obj("ops", working_dir=PROJ, log_mode=log_mode, accounting_enabled=True, **{"__class__": ci})
+    script = interp.call(fn, (make_target(options),), {}, self_obj=self_obj)
+    if not isinstance(script, str):
+        raise Unsupported(f"compile_script returned {type(script).__name__}")
+    return fn, script
+
+
+def rule_assembly(ctx, r):
+    idx = ctx.index
+    for name, mod, cname, prefix, flags, fixed in BACKENDS:
+        defaults = ctx.ev.eval_global(mod, "TARGET_DEFAULTS")
+        opts = {k: tok("V:" + k) for k in defaults if k not in ("cores", "memory")}
+        opts.update({"cores": 4, "memory": "8g"} if "cores" in defaults else {})
+        con = f"src/{mod.replace('.', '/')}.py::{cname}.compile_script"
+        try:
+            fn, script = compile_script(ctx, mod, cname, opts)
+        except Raised as exc:
+            r.violation(con, f"compiling a job script for a target with all options set raises {exc}", f"src/{mod.replace('.', '/')}.py")
+            continue
+        except Unsupported as exc:
+            r.violation(con, f"the script builder is no longer a pure string assembly this analysis can follow ({exc})", f"src/{mod.replace('.', '/')}.py")
+            continue
+        lines = script.split("\n")
+        ctx.shared[f"script:{name}"] = (fn, script, opts)
+        where = fn.where
+        r.check(lines[0] in ("#!/bin/bash", "#!/bin/sh", "#!/usr/bin/env bash"), con + "::shebang", "first line is the bash shebang",
+                f"the script starts with {lines[0]!r}, not a shebang", where)
+        cmd_idx = [i for i, l in enumerate(lines) if l.strip() and not l.startswith("#")]
+        dir_idx = [i for i, l in enumerate(lines) if l.startswith(prefix.strip())]
+        r.check(cmd_idx and dir_idx and max(dir_idx) < min(cmd_idx), con + "::directives-first", "all scheduler directives precede the first command",
+                "a scheduler directive comes after the first command: the scheduler stops reading directives at the first command line", where)
+        cd = [i for i, l in enumerate(lines) if l.startswith("cd ")]
+        sete = [i for i, l in enumerate(lines) if l.strip() in ("set -e", "set -eu", "set -euo pipefail", "set -e -o pipefail", "set -o errexit")]
+        spec_i = [i for i, l in enumerate(lines) if SPEC in l]
+        ok_cd = len(cd) == 1 and lines[cd[0]] == f"cd {tok('quote:' + WD)}"
+        if len(cd) == 1 and not ok_cd:
+            r.violation(con + "::cd-quoted", f"the script changes directory with `{lines[cd[0]]}`: the working directory must be passed through shlex.quote "
+                        "(a directory name with a space or shell metacharacters breaks the job or is executed)", where)
+        elif not cd:
+            r.violation(con + "::cd", "the script never changes into the target's working directory", where)
+        else:
+            r.ok(con + "::cd-quoted", f"cd {tok('quote:' + WD)}", where)
+        r.check(len(sete) >= 1 and spec_i and sete[0] < spec_i[0], con + "::set-e", "`set -e` precedes the spec",
+                "the script does not `set -e` before the spec: it no longer stops at the first failing command", where)
+        r.check(cd and spec_i and cd[0] < spec_i[0], con + "::cd-before-spec", "cd precedes the spec", "the spec runs before the directory is changed", where)
+        tail = script[script.index(SPEC):] if SPEC in script else ""
+        r.check(script.count(SPEC) == 1 and tail == SPEC + "\n", con + "::spec-verbatim", "the spec is embedded once, verbatim, last, newline-terminated",
+                f"the spec is not embedded verbatim as the last part of the script (tail: {tail[:60]!r}; occurrences: {script.count(SPEC)})", where)
+        pre = lines[spec_i[0]] if spec_i else ""
+        r.check(pre.startswith(SPEC), con + "::spec-own-line", "the spec starts on its own line", f"the spec is preceded on its line by {pre[:30]!r}", where)
+    # ensure_trailing_newline keeps text verbatim
+    interp = PureInterp(ctx)
+    etn = idx.func("gwf.utils:ensure_trailing_newline")
+    res = {s: interp.call(etn, (s,)) for s in ("", "a", "a\n", "a\nb", " a \n\n")}
+    want = {"": "\n", "a": "a\n", "a\n": "a\n", "a\nb": "a\nb\n", " a \n\n": " a \n\n"}
+    r.check(res == want, f"{etn.module.relpath}::{etn.qual}", "adds exactly one newline when missing, nothing else", f"ensure_trailing_newline maps {res}", etn.where)
+
+
+def rule_log_paths(ctx, r):
+    idx = ctx.index
+    want_out, want_err = f"{PROJ}/.gwf/logs/{NAME}.stdout", f"{PROJ}/.gwf/logs/{NAME}.stderr"
+    for name, mod, cname, prefix, flags, fixed in BACKENDS:
+        con = f"src/{mod.replace('.', '/')}.py::{cname}.compile_script::logs"
+        modes = ("full", "merged", "none") if name == "slurm" else ("full",)
+        for mode in modes:
+            try:
+                fn, script = compile_script(ctx, mod, cname, {}, log_mode=mode)
+            except (Raised, Unsupported) as exc:
+                r.violation(con + f"::{mode}", f"compiling a script with no options (log mode {mode}) fails: {exc}", f"src/{mod.replace('.', '/')}.py")
+                continue
+            lines = [l[len(prefix):] for l in script.split("\n") if l.startswith(prefix)]
+            outs = [l for l in lines if l.startswith(fixed["stdout"])]
+            errs = [l for l in lines if l.startswith(fixed["stderr"])]
+            outv = [next(l[len(p):] for p in fixed["stdout"] if l.startswith(p)) for l in outs]
+            errv = [next(l[len(p):] for p in fixed["stderr"] if l.startswith(p)) for l in errs]
+            if mode == "full":
+                ok = outv == [want_out] and errv == [want_err]
+                msg = f"log mode full: stdout -> {outv}, stderr -> {errv}; `gwf logs` reads {want_out} / {want_err}"
+            elif mode == "merged":
+                ok = outv == [want_out] and errv == []
+                msg = f"log mode merged: stdout -> {outv}, stderr -> {errv}; expected one combined file {want_out} and no --error"
+            else:
+                ok = outv == ["/dev/null"] and errv == []
+                msg = f"log mode none: stdout -> {outv}, stderr -> {errv}; expected --output=/dev/null only"
+            r.check(ok, con + f"::{mode}", msg, "the job's output does not go where `gwf logs` looks for it: " + msg, fn.where)
+    # readers
+    interp = PureInterp(ctx)
+    cxt = idx.cls("gwf.core:Context")
+    cobj = Obj("ctx", working_dir=PROJ, **{"__class__": cxt})
+    try:
+        logs_dir = interp.eval(ast.parse("ctx.logs_dir", mode="eval").body, {"ctx": cobj}, idx.repo.module("gwf.core"))
+    except (Raised, Unsupported) as exc:
+        logs_dir = f"<{exc}>"
+    r.check(logs_dir == f"{PROJ}/.gwf/logs", "src/gwf/core.py::Context.logs_dir", "logs_dir = <project>/.gwf/logs", f"Context.logs_dir evaluates to {logs_dir}", cxt.where)
+    lg = idx.func("gwf.plugins.logs:logs")
+    paths = {}
+    for flag in (False, True):
+        hooks = {"builtins.open": lambda p, *a, **k: Obj("file", read=("lambda",), path=p), "attr:read": lambda recv, *a: "", }
+        it = PureInterp(ctx, hooks={"builtins.open": lambda p, *a, **k: ("opened", p), "attr:read": lambda recv, *a: recv})
+        seen = []
+        it.hooks["click.echo"] = lambda x, *a, **k: seen.append(x)
+        it.hooks["click.echo_via_pager"] = lambda x, *a, **k: seen.append(x)
+        try:
+            it.call(lg, (Obj("ctx", working_dir=PROJ, logs_dir=f"{PROJ}/.gwf/logs"), NAME, flag, True), {})
+            paths[flag] = seen[0][1] if seen and isinstance(seen[0], tuple) else seen
+        except (Raised, Unsupported) as exc:
+            paths[flag] = f"<{exc}>"
+    r.check(paths.get(False) == want_out and paths.get(True) == want_err, f"{lg.module.relpath}::{lg.qual}", "`gwf logs T` reads .stdout, `-e` reads .stderr under <project>/.gwf/logs",
+            f"`gwf logs` opens {paths}", lg.where)
+    # local pool writer (C13.R4 checks buffers; here the location)
+    th = idx.func("gwf.backends.local:Scheduler.try_handle_task")
+    locs = []
+    for c in _calls(th.node):
+        if isinstance(c.func, (ast.Name, ast.Attribute)) and idx.canon(c.func, th.module) == "builtins.open" and c.args:
+            t = ast.unparse(c.args[0]).replace('"', "'")
+            locs.append(t)
+    ok = sorted(locs) == sorted(["self.working_dir.joinpath('.gwf', 'logs', f'{name}.stdout')", "self.working_dir.joinpath('.gwf', 'logs', f'{name}.stderr')"])
+    r.check(ok, f"{th.module.relpath}::{th.qual}::log-location", "local pool writes <project>/.gwf/logs/<name>.stdout|.stderr",
+            f"the local pool writes its logs to {locs}", th.where)
+
+
+def rule_options(ctx, r):
+    idx = ctx.index
+    for name, mod, cname, prefix, flags, fixed in BACKENDS:
+        relp = f"src/{mod.replace('.', '/')}.py"
+        con = f"{relp}::{cname}.compile_script::options"
+        defaults = ctx.ev.eval_global(mod, "TARGET_DEFAULTS")
+        unknown = sorted(set(defaults) - set(flags))
+        r.check(not unknown, f"{relp}::TARGET_DEFAULTS", "every supported option has a reference flag", f"options {unknown} have no known scheduler flag in the reference", relp)
+        got = ctx.shared.get(f"script:{name}")
+        if got is None:
+            continue
+        fn, script, opts = got
+        dirs = [l[len(prefix):] for l in script.split("\n") if l.startswith(prefix)]
+        for opt, val in opts.items():
+            if name == "sge" and opt == "memory":
+                val = "2g"  # 8g over 4 cores: SGE wants per-core memory
+            hits = [d for d in dirs if any(d == p + str(val) or (name == "lsf" and d.startswith(p) and str(val) in d) for p in flags.get(opt, ()))]
+            anyv = [d for d in dirs if str(val) in d]
+            if name == "lsf" and opt == "memory":
+                ok = any(d == "-M " + str(val) for d in dirs)
+            else:
+                ok = len(hits) == 1 and len(anyv) == 1
+            if not ok:
+                extra = ""
+                if name == "sge" and opt == "memory" and any("8g" in d for d in dirs):
+                    extra = " (total memory is not divided by the number of cores)"
+                r.violation(f"{con}::{opt}", f"option {opt}={val} is rendered as {anyv or 'nothing'}; expected exactly one directive {[p + str(val) for p in flags.get(opt, ())]}{extra}",
+                            fn.where)
+            else:
+                r.ok(f"{con}::{opt}", f"{opt} -> {hits[0] if hits else anyv[0]}", fn.where)
+        # nothing given twice: fixed directives and option flags are disjoint, each flag once
+        heads = [d.split("=")[0] if "=" in d.split(" ")[0] else d.split(" ")[0] + (" " + d.split(" ")[1] if d.startswith(("-l ", "-pe ")) else "") for d in dirs]
+        heads = [h.split("=")[0] for h in heads]
+        dup = sorted({h for h in heads if heads.count(h) > 1 and h not in ("-l h_vmem", "-l h_rt", "-V", "-w v", "-cwd")})
+        r.check(not dup, f"{con}::no-duplicates", "no directive is emitted twice", f"directive(s) {dup} are emitted twice with possibly conflicting values", fn.where)
+        # job name directive
+        jn = [d for d in dirs if any(d == p + NAME for p in fixed["job_name"])]
+        r.check(len(jn) == 1, f"{con}::job-name", f"job name directive {jn}", "the job is not named after the target", fn.where)
+        # each option omitted (resolved to None): no directive, no crash, no unfilled placeholder
+        for opt in opts:
+            rest = {k: v for k, v in opts.items() if k != opt}
+            try:
+                _fn, sc = compile_script(ctx, mod, cname, rest)
+            except Raised as exc:
+                r.violation(f"{con}::omitted-{opt}", f"when option `{opt}` was resolved to None (and therefore removed) the script builder raises {exc}", fn.where)
+                continue
+            except Unsupported as exc:
+                r.violation(f"{con}::omitted-{opt}", f"cannot follow the builder without `{opt}` ({exc})", fn.where)
+                continue
+            ds = [l[len(prefix):] for l in sc.split("\n") if l.startswith(prefix)]
+            leftover = [d for d in ds if any(d.startswith(p) for p in flags.get(opt, ())) and not (name == "sge" and opt in ("memory", "walltime") and False)]
+            if name == "sge":
+                leftover = [d for d in leftover if not any(d.startswith(p) and o != opt for o, ps in flags.items() for p in ps if o in rest)]
+            if name == "lsf":
+                leftover = [d for d in ds if ("{" + opt + "}") in d or (any(d.startswith(p) for p in flags.get(opt, ())) and not any(str(v) in d for v in rest.values()))]
+            brace = [d for d in ds if "{" in d and "}" in d and "⟦" not in d.split("{")[1].split("}")[0]]
+            r.check(not leftover and not brace, f"{con}::omitted-{opt}", f"without `{opt}` no directive for it is emitted",
+                    f"option `{opt}` resolved to None still produces {leftover or brace}", fn.where)
+
+
+def rule_resolution(ctx, r):
+    idx = ctx.index
+    sb = idx.func("gwf.scheduling:submit_backend")
+    con = f"{sb.module.relpath}::{sb.qual}"
+    captured = {}
+
+    def fake_submit(recv, target, deps):
+        captured["options"] = dict(target.options)
+        captured["deps"] = deps
+
+    interp = PureInterp(ctx, hooks={"attr:submit": fake_submit, "attr:update": lambda recv, *a: (recv.update(*a) if isinstance(recv, dict) else captured.setdefault("hashed", True))})
+    backend = Obj("backend", target_defaults={"a": 1, "b": None, "c": "x", "d": "dflt"})
+    target = Obj("target", name=NAME, spec=SPEC, working_dir=WD, options={"b": 5, "c": None, "zz": 9, "d": "mine"})
+    try:
+        params = sb.positional_params()
+        kwargs = {}
+        if "dry_run" in sb.params():
+            kwargs["dry_run"] = False
+        interp.call(sb, (target, ["dep"], backend, Obj("hashes")), kwargs)
+    except (Raised, Unsupported) as exc:
+        r.violation(con, f"option resolution cannot be evaluated: {exc}", sb.where)
+        return
+    got = captured.get("options")
+    want = {"a": 1, "b": 5, "d": "mine"}
+    if got != want:
+        why = []
+        if got is None:
+            why.append("backend.submit was not reached")
+        else:
+            if "c" in got:
+                why.append(f"an option the target resolved to None comes back as {got['c']!r} (must be omitted)")
+            if "zz" in got:
+                why.append("an option the backend does not know reaches the scheduler")
+            if got.get("b") != 5 or got.get("d") != "mine":
+                why.append("a per-target value does not override the backend default")
+            if got.get("a") != 1:
+                why.append("a backend default is lost")
+        r.violation(con + "::precedence", f"backend defaults {{a:1,b:None,c:'x',d:'dflt'}} + target options {{b:5,c:None,zz:9,d:'mine'}} resolve to {got}, expected {want}: "
+                    + "; ".join(why), sb.where)
+    else:
+        r.ok(con + "::precedence", "defaults < target options; None removed; unknown removed", sb.where)
+    warned = any(e[0] == "log" and e[1] in ("warning", "warn") and any("zz" == a for a in e[2]) for e in interp.events)
+    r.check(warned, con + "::warning", "an unknown option is dropped with a warning naming it", "an option the backend does not know is dropped without a warning", sb.where)
+    r.check(captured.get("deps") == ["dep"], con + "::deps", "dependencies are passed through unchanged", "submit_backend does not pass the dependency list through to the backend", sb.where)
+    # workflow-level chains
+    ch = idx.func("gwf.utils:chain")
+    it = PureInterp(ctx)
+    res = it.call(ch, ({"a": 1, "b": 1}, {"b": 2, "c": 2}, {"c": 3}))
+    r.check(res == {"a": 1, "b": 2, "c": 3}, f"{ch.module.relpath}::{ch.qual}", "later dictionaries override earlier ones", f"chain() gives {res}", ch.where)
+    wf = idx.cls("gwf.workflow:Workflow")
+    for meth, want in (("target", ["self.defaults", "options"]), ("target_from_template", ["self.defaults", "template.options", "options"])):
+        m = idx.method(wf, meth)
+        args = None
+        for c in _calls(m.node):
+            if isinstance(c.func, (ast.Name, ast.Attribute)) and idx.canon(c.func, m.module) == "gwf.utils.chain":
+                args = [ast.unparse(a) for a in c.args]
+        r.check(args == want, f"{m.module.relpath}::{m.qual}::options", f"options = chain({', '.join(want)})",
+                f"Workflow.{meth} merges options as chain({args}): precedence must be workflow default < template < per-target argument", m.where)
+
+
+def rule_log_cleaning(ctx, r):
+    idx = ctx.index
+    cl = idx.func("gwf.plugins.run:clean_logs")
+    con = f"{cl.module.relpath}::{cl.qual}"
+    removes = [c for c in _calls(cl.node) if isinstance(c.func, (ast.Name, ast.Attribute)) and idx.canon(c.func, cl.module) in ("os.remove", "os.unlink")]
+    loops = {n.target.id: n for n in walk_no_nested(cl.node) if isinstance(n, ast.For) and isinstance(n.target, ast.Name)}
+    ok = bool(removes)
+    for c in removes:
+        names = {x.id for x in ast.walk(c) if isinstance(x, ast.Name)}
+        lv = [v for v in loops if v in names]
+        if not lv:
+            ok = False
+            continue
+        it = ast.unparse(loops[lv[0]].iter).replace(" ", "")
+        if it not in ("log_files.difference(target_set)", "log_files-target_set"):
+            ok = False
+        t = ast.unparse(c.args[0]).replace('"', "'")
+        if not (".gwf" in t and "logs" in t and (".stdout" in t or ".stderr" in t)):
+            ok = False
+    tset = any(isinstance(n, ast.Assign) and dotted(n.targets[0]) == "target_set" and ast.unparse(n.value).replace(" ", "") in ("set(graph.targets.keys())", "set(graph.targets)")
+               for n in walk_no_nested(cl.node))
+    r.check(ok and tset, con, "removes only <name>.stdout/.stderr for names in (log files - current target names)",
+            "log cleaning can remove logs of targets that are still part of the workflow (or other files)", cl.where)
+    run_f = idx.func("gwf.plugins.run:run")
+    guard = None
+    for n in walk_no_nested(run_f.node):
+        if isinstance(n, ast.If) and any(isinstance(c.func, ast.Name) and c.func.id == "clean_logs" for c in _calls(n)):
+            guard = n
+    from ..astutil import truth_table
+    ok = False
+    if guard is not None:
+        atoms = {"cfg": lambda e: ast.unparse(e).replace('"', "'") in ("ctx.config.get('clean_logs')", "ctx.config['clean_logs']"), "dry": lambda e: dotted(e) == "dry_run"}
+        tt = truth_table(guard.test, atoms)  # keys (cfg, dry)
+        ok = tt == {(False, False): False, (False, True): False, (True, False): True, (True, True): False}
+    r.check(ok, f"{run_f.module.relpath}::{run_f.qual}::clean_logs-guard", "logs are cleaned iff config clean_logs and not dry_run",
+            "log cleaning is not guarded by `config clean_logs and not dry_run` (it runs when switched off or during a dry run)", run_f.where)
+    others = [f for f in idx.functions.values() if f.key != run_f.key for c in _calls(f.node) if isinstance(c.func, ast.Name) and c.func.id == "clean_logs"
+              and idx.canon(c.func, f.module) == "gwf.plugins.run.clean_logs"]
+    r.check(not others, con + "::callers", "clean_logs is called only by run", f"clean_logs is also called from {[o.qual for o in others]}", cl.where)
 
 
 def run(ctx):
-    raise AnalysisError("rules for C10 not implemented yet")
+    r1 = ctx.rule("R1", "script assembly: shebang, directives, quoted cd, set -e, then the spec verbatim (three sibling builders)", min_instances=10)
+    rule_assembly(ctx, r1)
+    r3 = ctx.rule("R3", "log paths written by the schedulers / the local pool are the ones `gwf logs` reads; log modes", min_instances=7)
+    rule_log_paths(ctx, r3)
+    r4 = ctx.rule("R4", "every supported option becomes exactly one directive with the documented flag; omitted options leave no trace", min_instances=15)
+    rule_options(ctx, r4)
+    r5 = ctx.rule("R5", "option resolution: backend default < workflow default < template < per-target; None omitted; unknown dropped with a warning", min_instances=5)
+    rule_resolution(ctx, r5)
+    r6 = ctx.rule("R6", "log cleaning removes only logs of targets that left the workflow, never when switched off or on a dry run", min_instances=3)
+    rule_log_cleaning(ctx, r6)
